@@ -19,6 +19,7 @@ CONSTANTS
   Weak_LatestUnverifiedWhenUpToDate = TRUE
   Weak_BackwardsCommitUnverified = FALSE
   CommitBlockIDValidated = FALSE
+  Weak_EvidenceBoundByIdOnly = FALSE
   Weak_SearchProofFromCachedBlock = FALSE
 INIT CaseInit
 NEXT CaseNext
